@@ -366,6 +366,19 @@ func runPackage(c *fw.Ctx, idx int, o genOpts, record bool) ([]failure, *pkgMode
 			if t, err := er.Text(); err == nil {
 				k.stream("epubdoc.Reader.Text()", t)
 			}
+			// the filtered navigation modes narrow what a content document shows to what lies
+			// outside navigation elements; the generated chapters (and the content a navigation
+			// document carries outside its <nav>) have no such elements around their tokens, so
+			// every declared part is still shown, in order
+			for _, mode := range []int{2, 3} {
+				o := epubdoc.ExtractOptions{NavigationExclusion: mode}
+				if t, err := er.TextWithOptions(o); err == nil {
+					k.stream(fmt.Sprintf("epubdoc.Reader.TextWithOptions(NavigationExclusion=%d)", mode), t)
+				}
+				if t, err := er.MarkdownWithOptions(o); err == nil {
+					k.stream(fmt.Sprintf("epubdoc.Reader.MarkdownWithOptions(NavigationExclusion=%d)", mode), t)
+				}
+			}
 			if d, err := er.Document(); err == nil && d != nil && k.count("len(epubdoc.Reader.Document().Pages) after Text()", len(d.Pages)) {
 				for j, p := range d.Pages {
 					k.page("epubdoc.Reader.Document().Pages after Text()", j, pageText(p))
